@@ -32,12 +32,17 @@ type oracle struct {
 
 	validators map[int64][]module.Address // validators designated for height h (by block h-1)
 	certOK     map[int64]bool
+
+	// lock-rule monitor (lockrule.go)
+	prevotes map[string]map[string]map[string]bool // "height/round" -> value -> signers (any validator, verified signature)
+	lastPC   map[string]lockState                  // "signer/height" -> highest-round non-nil precommit of a correct validator
 }
 
 func newOracle(s *sim) *oracle {
 	return &oracle{s: s, finalID: map[int64]string{}, finalBy: map[int64]int{},
 		precommits: map[string]map[string]bool{}, pcKeys: map[string][]string{},
-		signed: map[string]map[string]string{}, validators: map[int64][]module.Address{}, certOK: map[int64]bool{}}
+		signed: map[string]map[string]string{}, validators: map[int64][]module.Address{}, certOK: map[int64]bool{},
+		prevotes: map[string]map[string]map[string]bool{}, lastPC: map[string]lockState{}}
 }
 
 func signerOf(sig common.Signature, signedBytes []byte) string {
@@ -106,6 +111,7 @@ func (o *oracle) noteVote(src *node, vm *consensus.VoteMessage, own bool) {
 	if c := o.isCorrect(signer); c != nil {
 		o.s.byz.onAcceptedVote(c, vm)
 	}
+	o.lockRule(signer, vm, bid+"/"+psid)
 	if vm.Type == consensus.VoteTypePrecommit && vm.BlockPartSetIDAndNTSVoteCount != nil {
 		k := fmt.Sprintf("%d/%d/%s/%s", vm.Height, vm.Round, bid, psid)
 		m := o.precommits[k]
@@ -236,11 +242,9 @@ func (o *oracle) poll() {
 			} else {
 				o.finalID[h] = id
 				o.finalBy[h] = n.idx
-				if _, ok := o.validators[h+1]; !ok {
-					o.validators[h+1] = validatorsOf(blk.NextValidators())
-					if len(o.validators[h+1]) != len(o.validators[h]) {
-						s.rc.Probe("validator_set_changed")
-					}
+				o.validators[h+1] = validatorsOf(blk.NextValidators())
+				if len(o.validators[h+1]) != len(o.validators[h]) {
+					s.rc.Probe("validator_set_changed")
 				}
 			}
 			o.checkCertificate(n, h, id)
